@@ -13,7 +13,7 @@
    modelled.  Cache lookups (`self._cache`) return what the same call returned before; not
    modelled here (C11/C13). *)
 From Coq Require Import ZArith List Bool.
-From Verif Require Import Py Shape COO G_shapeops.
+From Verif Require Import Py Shape COO G_shapeops S_shapeops.
 Import ListNotations.
 Open Scope Z_scope.
 
@@ -378,8 +378,10 @@ Section Ops.
     else
       prs <- pad_pairs (length (c_shape x)) pw ;;
       let before := map fst prs in
-      let new_shape := map (fun dp => fst dp + fst (snd dp) + snd (snd dp)) (combine (c_shape x) prs) in
-      coo_make_checked new_shape (map_coords (fun c => map (fun cb => fst cb + snd cb) (combine c before)) x) (c_fill x).
+      (* the two arithmetic expressions are GENERATED (Gen/S_shapeops.v): coords + before (no cast back to
+         the input's index dtype) and extent + before + after *)
+      let new_shape := map (fun dp => s_pad_extent (fst dp) (fst (snd dp)) (snd (snd dp))) (combine (c_shape x) prs) in
+      coo_make_checked new_shape (map_coords (fun c => map (fun cb => s_pad_coord (fst cb) (snd cb)) (combine c before)) x) (c_fill x).
 
   (* -------------------------------------------------------------- broadcast_to *)
 
